@@ -720,7 +720,23 @@ func TestVerif_C13(t *testing.T) {
 		}
 		for i := 0; i < 5; i++ {
 			sig, msg := "", ""
-			if rp.Case != nil {
+			if rp.Case != nil && len(rp.Case.Cuts) > 0 && len(rp.Case.Events) > 0 && len(rp.Case.Events[0].bytes()) > 4096 {
+				// a large case: exactly the recorded splitting against the unsplit string (not every splitting again)
+				ref, pan := c13RunCase(c13Case{Kind: rp.Case.Kind, Events: rp.Case.Events})
+				eff, pan2 := c13RunCase(*rp.Case)
+				v := ""
+				switch {
+				case pan != "":
+					v = "unsplit: " + pan
+				case pan2 != "":
+					v = fmt.Sprintf("cuts %v: %s", rp.Case.Cuts, pan2)
+				case eff != ref:
+					v = fmt.Sprintf("cuts %v: effect depends on the splitting:\n  unsplit: %s\n  split:   %s", rp.Case.Cuts, ref, eff)
+				}
+				if v != "" {
+					sig, msg = c13Sig(v), v
+				}
+			} else if rp.Case != nil {
 				v, _ := c13Check(st, rp.Case.Kind, rp.Case.Events, len(rp.Case.Cuts))
 				if v != "" {
 					sig, msg = c13Sig(v), v
@@ -836,7 +852,7 @@ func TestVerif_C13(t *testing.T) {
 				c13CutFilter = nil
 				if v != "" {
 					if len(v) > 900 {
-						v = v[:900] // (the event dump of a large case is long)
+						v = v[:200] + " ... " + v[len(v)-600:] // (the event dump of a large case is long; the reason is at the end)
 					}
 					fail(v, c)
 				}
